@@ -393,6 +393,15 @@ func c14Key(c *Ctx, a *crlAnchors) {
 		}
 		got = desc(r.Results[0])
 		hx, isCall := r.Results[0].(*ssa.Call)
+		// fmt.Sprintf("%x", sha256.Sum256([]byte(url))) renders the same lower-case hex of the whole array
+		if isCall && calleeName(hx) == "fmt.Sprintf" && len(hx.Call.Args) == 2 && desc(hx.Call.Args[0]) == `const:"%x"` {
+			if els := appendedElems(hx.Call.Args[1]); len(els) == 1 {
+				if sum, isSum := unwrap(els[0]).(*ssa.Call); isSum && calleeName(sum) == "crypto/sha256.Sum256" && unwrap(sum.Call.Args[0]) == ssa.Value(up) {
+					ok = true
+				}
+			}
+			continue
+		}
 		if !isCall || calleeName(hx) != "encoding/hex.EncodeToString" {
 			continue
 		}
